@@ -16,6 +16,8 @@ def monitor(case, o):
             live.discard(a[0])
     running_at_end = bool(live) and not o["dead"]
     for k, (op, ws) in enumerate(zip(case["ops"], o["tickets"])):
+        if op["op"] == "drop_handle":
+            continue            # no ticket
         if len(set(ws)) > 1:
             out.append(("C07_multi_waiter: waiters on clones of one ticket resolved differently", f"op {k} {op['op']}: {ws}"))
         if any(w is None for w in ws):
@@ -28,7 +30,7 @@ def monitor(case, o):
     b = case.get("_bound")
     if b is not None and not any(op["op"] == "raw" and op["ctrl"] == "NextEnding" for op in case["ops"]):
         for k, (op, ws) in enumerate(zip(case["ops"], o["tickets"])):
-            if op["op"] == "to_wait" or ws[0] is None:
+            if op["op"] in ("to_wait", "drop_handle") or ws[0] is None:
                 continue
             if ws[0] > b:
                 out.append(("C07_every_ticket_resolves: a control was executed later than the grace periods in effect allow",
